@@ -24,8 +24,8 @@ XERIAL = b"\x82SNAPPY\x00"
 
 # ---- generator ---------------------------------------------------------------------------------------
 
-def rand_payload(rng, big_ok=True):
-    """-> bytes or None (None = absent)"""
+def rand_payload(rng):
+    """-> bytes or None (None = absent); at most 400 bytes"""
     k = rng.random()
     if k < 0.18:
         return None
@@ -33,27 +33,35 @@ def rand_payload(rng, big_ok=True):
         return b""
     if k < 0.40:
         return bytes([rng.getrandbits(8)])
-    if k < 0.70:
+    if k < 0.72:
         return rand_bytes(rng, 2, 40)
-    if k < 0.78:
+    if k < 0.80:
         return rand_bytes(rng, 1, 12, b"ab")
-    if k < 0.82:
+    if k < 0.84:
         return bytes(range(256))
-    if k < 0.86:
+    if k < 0.90:
         return b"\x00" * rng.randint(1, 70)
-    if k < 0.90 or not big_ok:
-        return rand_bytes(rng, 41, 400)
-    n = rng.choice([1024, 4095, 4096, 4097, 8192, 20000, 20480, rng.randint(1024, 20480)])
+    return rand_bytes(rng, 41, 400)
+
+
+def big_payload(rng, n):
     if rng.random() < 0.5:
         return bytes(rng.getrandbits(8) for _ in range(n))
     unit = rand_bytes(rng, 1, 9)
     return (unit * (n // len(unit) + 1))[:n]
 
 
-def make_case(rng, tier, mode=None, codec=None, huge=False):
+# The extracted model's cost grows faster than linearly with the size of a request (about 0.5 s at 4 KiB, 3 s at 8 KiB, 20 s at
+# 16-20 KiB on a loaded machine), so multi-KiB payloads are rationed per tier.
+SIZE_CLASSES = {"small": [], "kib": [1024, 1500, 2048, 4095, 4096, 4097], "8k": [8192, 6000, 8191], "20k": [20480, 20000, 16384, 12000],
+                "huge": []}
+
+
+def make_case(rng, tier, mode=None, codec=None, size="small"):
     nb = rng.randint(1, 3)
     names = set()
-    while len(names) < rng.randint(1, 4):
+    want = rng.randint(1, 4)
+    while len(names) < want:
         names.add(rand_topic(rng))
     names = sorted(names)
     topics = {t: [rng.randint(1, nb) for _ in range(rng.randint(1, 4))] for t in names}
@@ -71,28 +79,33 @@ def make_case(rng, tier, mode=None, codec=None, huge=False):
     nboot = len(ops)
     batches = []
     maxrec = 14 if tier == "quick" else 30
-    for _ in range(rng.choice([1, 1, 2])):
+    nbatches = rng.choice([1, 1, 2]) if size in ("small", "kib") else 1
+    for _ in range(nbatches):
         recs = []
-        if huge:
-            t = rng.choice(names)
-            p = rng.randrange(len(topics[t]))
-            for _ in range(4):
-                recs.append((t, p, rand_payload(rng, False), bytes(rng.getrandbits(8) for _ in range(rng.randint(17000, 20480)))))
-            recs.append((t, p, None, (rand_bytes(rng, 3, 9) * 8000)[:rng.randint(30000, 66000)]))
         shape = rng.random()
         n = rng.randint(1, 3) if shape < 0.3 else rng.randint(1, maxrec)
+        if size in ("20k", "huge"):
+            n = rng.randint(1, 4)
         hot = (rng.choice(names), 0)
-        nbig = 0
         for _ in range(n):
             if shape > 0.8 and rng.random() < 0.7:
                 t, p = hot
             else:
                 t = rng.choice(names)
                 p = rng.randrange(len(topics[t]))
-            k = rand_payload(rng, nbig < 3)
-            v = rand_payload(rng, nbig < 3)
-            nbig += (len(k or b"") >= 1024) + (len(v or b"") >= 1024)
-            recs.append((t, p, k, v))
+            recs.append((t, p, rand_payload(rng), rand_payload(rng)))
+        if SIZE_CLASSES[size]:
+            for _ in range(rng.choice([1, 2]) if size == "kib" else 1):
+                i = rng.randrange(len(recs))
+                t, p, k, v = recs[i]
+                big = big_payload(rng, rng.choice(SIZE_CLASSES[size]))
+                recs[i] = (t, p, big, v) if rng.random() < 0.35 else (t, p, k, big)
+        if size == "huge":
+            # one partition whose plain message set exceeds 64 KiB (several snappy blocks)
+            t, p = hot
+            recs = [(t, p, rand_payload(rng), big_payload(rng, rng.randint(17000, 20480))) for _ in range(3)] + \
+                   [(t, p, None, big_payload(rng, 9000))] + recs[:2]
+            rng.shuffle(recs)
         if mode == "client":
             ops.append(T("produce_messages", [acks, rng.choice([0, 1, 30]), rng.choice([0, 500000000]),
                                                [T("pm", [t, p, some(k), some(v)]) for (t, p, k, v) in recs]]))
@@ -102,18 +115,23 @@ def make_case(rng, tier, mode=None, codec=None, huge=False):
             # Producer API: an empty slice means "absent"
             batches.append([(t, p, k or None, v or None) for (t, p, k, v) in recs])
     return {"cluster": spec, "ops": ops,
-            "meta": {"mode": mode, "codec": codec, "acks": acks, "nboot": nboot, "batches": batches, "huge": huge}}
+            "meta": {"mode": mode, "codec": codec, "acks": acks, "nboot": nboot, "batches": batches, "size": size}}
 
 
 def gen(rng, tier):
+    quick = tier == "quick"
+    plan = [("small", 420 if quick else 4200), ("kib", 84 if quick else 900), ("8k", 18 if quick else 120),
+            ("20k", 6 if quick else 48), ("huge", 0 if quick else 2)]
     cases = []
-    n = 520 if tier == "quick" else 6000
-    for mode in ("client", "producer"):
-        for codec in (0, 1, 2):
-            for _ in range(n // 6):
-                cases.append(make_case(rng, tier, mode, codec))
-    for _ in range(6 if tier == "quick" else 60):
-        cases.append(make_case(rng, tier, huge=True))
+    # the expensive classes first and adjacent, so that the checker's round-robin sharding spreads them over the workers
+    for size, n in reversed(plan):
+        i = 0
+        while i < n:
+            for mode in ("client", "producer"):
+                for codec in (2, 1, 0):
+                    if i < n:
+                        cases.append(make_case(rng, tier, mode, codec, size))
+                        i += 1
     return cases
 
 
@@ -297,7 +315,8 @@ def nontrivial(case, recs):
 def stats(case, recs):
     m = case["meta"]
     s = {"mode:" + m["mode"]: 1, "codec:" + CODEC_NAME[m["codec"]]: 1, "acks:%d" % m["acks"]: 1,
-         "brokers:%d" % len(case["cluster"]["brokers"]): 1, "topics:%d" % len(case["cluster"]["topics"]): 1}
+         "brokers:%d" % len(case["cluster"]["brokers"]): 1, "topics:%d" % len(case["cluster"]["topics"]): 1,
+         "size_class:" + m["size"]: 1}
 
     def bump(k, n=1):
         s[k] = s.get(k, 0) + n
